@@ -215,6 +215,28 @@ theorem fileCalls_wf (s : Shard) (q : Query) (sc : Scope) (A : AggType) (blk : B
     · simp at hc
   · simp at hc
 
+theorem memResult_wf (s : Shard) (q : Query) (sc : Scope) (A : AggType) (fam : Nat) (group : List Nat)
+    (mem : List Arrays) (hmr : memResult s q sc [A] fam group = some mem) : ∀ c ∈ mem, WF1 A c := by
+  intro c' hc'
+  unfold memResult at hmr
+  cases hmu : (s.family fam).mutable_ with
+  | none => rw [hmu] at hmr; simp at hmr; subst hmr; simp at hc'
+  | some md =>
+    rw [hmu] at hmr
+    simp only at hmr
+    cases hf : memFilter s q sc md fam with
+    | none =>
+      rw [hf] at hmr
+      simp only at hmr
+      split at hmr
+      · cases hmr; simp at hc'
+      · cases hmr
+    | some bb =>
+      rw [hf] at hmr
+      cases bb with
+      | true => simp at hmr; subst hmr; exact memCalls_wf s q A md fam group c' hc'
+      | false => simp at hmr; subst hmr; simp at hc'
+
 theorem familyCalls_wf (s : Shard) (q : Query) (sc : Scope) (A : AggType) (fam : Nat) (group : List Nat) :
     ∀ c ∈ familyCalls s q sc [A] fam group, WF1 A c := by
   intro c hc
@@ -224,26 +246,14 @@ theorem familyCalls_wf (s : Shard) (q : Query) (sc : Scope) (A : AggType) (fam :
   | some mem =>
     rw [hmr] at hc
     simp only at hc
-    have hm : ∀ c ∈ mem, WF1 A c := by
-      intro c' hc'
-      unfold memResult at hmr
-      cases hmu : (s.family fam).mutable_ with
-      | none => rw [hmu] at hmr; simp at hmr; subst hmr; simp at hc'
-      | some md =>
-        rw [hmu] at hmr
-        simp only at hmr
-        cases hf : memFilter s q sc md fam with
-        | none => rw [hf] at hmr; simp at hmr
-        | some bb =>
-          rw [hf] at hmr
-          cases bb with
-          | true => simp at hmr; subst hmr; exact memCalls_wf s q A md fam group c' hc'
-          | false => simp at hmr; subst hmr; simp at hc'
+    have hm := memResult_wf s q sc A fam group mem hmr
     unfold combineCalls at hc
     split at hc
     · exact hm c hc
     · split at hc
-      · simp at hc
+      · split at hc
+        · exact hm c hc
+        · simp at hc
       · rw [List.mem_append] at hc
         rcases hc with h | h
         · exact hm c h
@@ -474,15 +484,264 @@ theorem readers_eq_chron {A : AggType} (hc : AggComm A) (f : Family) (k : PageKe
   rw [fsum_append, fsum_append]
   exact ocomb_comm hc _ _
 
+/-! ### a second invariant: pages' series are known, blocks list their pages' fields and series -/
+
+structure Inv2 (s : Shard) : Prop where
+  known : ∀ fam md k b, (s.family fam).mutable_ = some md → Map.lookup md.pages k = some b → k.1 ∈ s.known
+  blocks : ∀ fam, ∀ blk ∈ (s.family fam).readers, ∀ k, k ∈ blk.pages.map Prod.fst →
+    k.2 ∈ blk.fields ∧ k.1 ∈ blk.series
+
+theorem lookup_some_of_mem_keys {κ : Type} [DecidableEq κ] {α : Type} (m : List (κ × α)) (k : κ)
+    (h : k ∈ m.map Prod.fst) : ∃ v, Map.lookup m k = some v := by
+  induction m with
+  | nil => simp at h
+  | cons p rest ih =>
+    obtain ⟨k', v'⟩ := p
+    by_cases h1 : k' = k
+    · exact ⟨v', by simp [Map.lookup, h1]⟩
+    · simp only [List.map_cons, List.mem_cons] at h
+      rcases h with e | e
+      · exact absurd e.symm h1
+      · obtain ⟨v, hv⟩ := ih e
+        exact ⟨v, by simp [Map.lookup, h1, hv]⟩
+
+theorem write_known_mono (s : Shard) (tick fam ser fld : Nat) (ft : FieldType) (slot : Nat) (v : Int) (x : Nat)
+    (h : x ∈ s.known ∨ x = ser) : x ∈ (s.write tick fam ser fld ft slot v).known := by
+  show x ∈ (if s.known.contains ser then s.known else s.known ++ [ser])
+  split
+  · rename_i hc
+    rcases h with h | h
+    · exact h
+    · subst h; simpa using hc
+  · rcases h with h | h
+    · simp [h]
+    · simp [h]
+
+theorem inv2_write (s : Shard) (h2 : Inv2 s) (tick fam ser fld : Nat) (ft : FieldType) (slot : Nat) (v : Int) :
+    Inv2 (s.write tick fam ser fld ft slot v) := by
+  constructor
+  · intro fam2 md2 k b hm hk
+    by_cases hf : fam = fam2
+    · subst hf
+      rw [write_family_self] at hm
+      simp only [Option.some.injEq] at hm
+      subst hm
+      simp only at hk
+      by_cases hkey : (ser, fld) = k
+      · subst hkey
+        exact write_known_mono s tick fam ser fld ft slot v ser (Or.inr rfl)
+      · rw [Map.lookup_upsert_ne _ _ _ _ hkey] at hk
+        cases hmu : (s.family fam).mutable_ with
+        | none => simp [curMem, hmu, Map.lookup] at hk
+        | some md =>
+          simp only [curMem, hmu] at hk
+          exact write_known_mono s tick fam ser fld ft slot v k.1 (Or.inl (h2.known fam md k b hmu hk))
+    · rw [write_family_ne s tick fam ser fld ft slot v fam2 hf] at hm
+      exact write_known_mono s tick fam ser fld ft slot v k.1 (Or.inl (h2.known fam2 md2 k b hm hk))
+  · intro fam2 blk hb k hk
+    by_cases hf : fam = fam2
+    · subst hf
+      have : ((s.write tick fam ser fld ft slot v).family fam).readers = (s.family fam).readers := by
+        rw [write_family_self]; rfl
+      rw [this] at hb
+      exact h2.blocks fam blk hb k hk
+    · rw [write_family_ne s tick fam ser fld ft slot v fam2 hf] at hb
+      exact h2.blocks fam2 blk hb k hk
+
+theorem flush_known (s : Shard) (fam : Nat) : (s.flush fam).known = s.known := by
+  cases h : (s.family fam).mutable_ with
+  | none => rw [flush_none s fam h]
+  | some md => rw [flush_some s fam md h]
+
+theorem inv2_flush (s : Shard) (h2 : Inv2 s) (fam : Nat) : Inv2 (s.flush fam) := by
+  cases hm : (s.family fam).mutable_ with
+  | none => rw [flush_none s fam hm]; exact h2
+  | some md =>
+    constructor
+    · intro fam2 md2 k b hm2 hk
+      rw [flush_known]
+      by_cases hf : fam = fam2
+      · subst hf
+        rw [flush_some_family_self s fam md hm] at hm2
+        simp at hm2
+      · rw [flush_some_family_ne s fam fam2 md hm hf] at hm2
+        exact h2.known fam2 md2 k b hm2 hk
+    · intro fam2 blk hb k hk
+      by_cases hf : fam = fam2
+      · subst hf
+        rw [flush_some_family_self s fam md hm] at hb
+        simp only [Family.readers] at hb
+        cases hfm : flushMemDB s md with
+        | none =>
+          rw [hfm] at hb
+          exact h2.blocks fam blk (by simpa [Family.readers] using hb) k hk
+        | some nb =>
+          rw [hfm] at hb
+          simp only [List.append_assoc, List.mem_append, List.mem_singleton] at hb
+          by_cases hold : blk ∈ (s.family fam).readers
+          · exact h2.blocks fam blk hold k hk
+          · have hnb : blk = nb := by
+              rcases hb with h | h | h
+              · exact absurd (by simp [Family.readers, h]) hold
+              · exact h
+              · exact absurd (by simp only [Family.readers, List.mem_append]; exact Or.inr h) hold
+            subst hnb
+            -- the new block
+            unfold flushMemDB at hfm
+            cases hr : Map.lookup s.ranges md.created with
+            | none => rw [hr] at hfm; cases hfm
+            | some rg =>
+              obtain ⟨lo, hi⟩ := rg
+              rw [hr] at hfm
+              simp only [Option.some.injEq] at hfm
+              subst hfm
+              simp only [List.map_map] at hk
+              have hk' : k ∈ md.pages.map Prod.fst := by
+                simpa [Function.comp] using hk
+              constructor
+              · simp only
+                rw [List.mem_eraseDups]
+                rw [List.mem_map] at hk' ⊢
+                obtain ⟨p, hp, rfl⟩ := hk'
+                exact ⟨p, hp, rfl⟩
+              · obtain ⟨b, hb'⟩ := lookup_some_of_mem_keys md.pages k hk'
+                exact h2.known fam md k b hm hb'
+      · rw [flush_some_family_ne s fam fam2 md hm hf] at hb
+        exact h2.blocks fam2 blk hb k hk
+
+theorem mem_readers_iff_chron (f : Family) (blk : Block) : blk ∈ f.chron ↔ blk ∈ f.readers := by
+  simp only [Family.chron, Family.readers, List.mem_append]
+  exact Or.comm
+
+theorem inv2_compact (s : Shard) (h2 : Inv2 s) (fam : Nat) : Inv2 (s.compact fam) := by
+  unfold Shard.compact
+  simp only
+  split
+  · exact h2
+  · cases hmb : mergeBlocks s.fieldAgg (s.family fam).chron with
+    | none => exact h2
+    | some blk =>
+      simp only
+      have hfs : ∀ fam2, fam ≠ fam2 →
+          (Shard.mk s.cfg s.window (Map.upsert s.families fam
+            { s.family fam with files := [], base := some blk }) s.ranges s.fieldTypes s.known s.nextTick).family fam2 = s.family fam2 :=
+        fun fam2 h => family_upsert_ne s fam fam2 _ _ _ _ _ h
+      have hff : (Shard.mk s.cfg s.window (Map.upsert s.families fam
+            { s.family fam with files := [], base := some blk }) s.ranges s.fieldTypes s.known s.nextTick).family fam =
+            { s.family fam with files := [], base := some blk } := family_upsert_self s fam _ _ _ _ _
+      constructor
+      · intro fam2 md2 k b hm hk
+        show k.1 ∈ s.known
+        by_cases hf : fam = fam2
+        · subst hf; rw [hff] at hm; exact h2.known fam md2 k b hm hk
+        · rw [hfs fam2 hf] at hm; exact h2.known fam2 md2 k b hm hk
+      · intro fam2 b' hb k hk
+        by_cases hf : fam = fam2
+        · subst hf
+          rw [hff] at hb
+          simp [Family.readers] at hb
+          subst hb
+          -- the merged block
+          cases hch : (s.family fam).chron with
+          | nil => rw [hch] at hmb; simp [mergeBlocks] at hmb
+          | cons b0 rest =>
+            rw [hch] at hmb
+            simp only [mergeBlocks, Option.some.injEq] at hmb
+            subst hmb
+            simp only [List.map_map] at hk
+            have hk' : k ∈ ((b0 :: rest).flatMap (fun b => b.pages.map Prod.fst)).eraseDups := by
+              simpa [Function.comp] using hk
+            rw [List.mem_eraseDups, List.mem_flatMap] at hk'
+            obtain ⟨bb, hbb, hkb⟩ := hk'
+            have hbr : bb ∈ (s.family fam).readers := by
+              rw [← mem_readers_iff_chron, hch]; exact hbb
+            obtain ⟨hfld, hser⟩ := h2.blocks fam bb hbr k hkb
+            constructor
+            · simp only
+              rw [List.mem_eraseDups, List.mem_flatMap]; exact ⟨bb, hbb, hfld⟩
+            · simp only
+              rw [List.mem_eraseDups, List.mem_flatMap]; exact ⟨bb, hbb, hser⟩
+        · rw [hfs fam2 hf] at hb; exact h2.blocks fam2 b' hb k hk
+
+theorem flushAll_mutable_none :
+    ∀ (l : List Nat) (s : Shard) (fam : Nat), (fam ∈ l ∨ (s.family fam).mutable_ = none) →
+      ((flushAll s l).family fam).mutable_ = none := by
+  intro l
+  induction l with
+  | nil =>
+    intro s fam h
+    rcases h with h | h
+    · simp at h
+    · exact h
+  | cons x rest ih =>
+    intro s fam h
+    simp only [flushAll, List.foldl_cons]
+    apply ih
+    by_cases hx : x = fam
+    · right
+      subst hx
+      cases hm : (s.family x).mutable_ with
+      | none => rw [flush_none s x hm]; exact hm
+      | some md => rw [flush_some_family_self s x md hm]
+    · rcases h with h | h
+      · left
+        rcases List.mem_cons.mp h with e | e
+        · exact absurd e.symm hx
+        · exact e
+      · right
+        cases hm : (s.family x).mutable_ with
+        | none => rw [flush_none s x hm]; exact h
+        | some md => rw [flush_some_family_ne s x fam md hm hx]; exact h
+
+theorem inv2_flushAll : ∀ (l : List Nat) (s : Shard), Inv2 s → Inv2 (flushAll s l) := by
+  intro l
+  induction l with
+  | nil => intro s h; exact h
+  | cons x rest ih => intro s h; exact ih (s.flush x) (inv2_flush s h x)
+
+theorem inv2_reopen (s : Shard) (h2 : Inv2 s) : Inv2 s.reopen := by
+  unfold Shard.reopen
+  have hall : ∀ fam, ((flushAll s (s.families.map Prod.fst)).family fam).mutable_ = none := by
+    intro fam
+    apply flushAll_mutable_none
+    by_cases hm : fam ∈ s.families.map Prod.fst
+    · exact Or.inl hm
+    · right
+      simp [Shard.family, lookup_none_of_not_mem s.families fam hm, Family.empty]
+  have h3 := inv2_flushAll (s.families.map Prod.fst) s h2
+  constructor
+  · intro fam md k b hm _
+    have := hall fam
+    change ((flushAll s (s.families.map Prod.fst)).family fam).mutable_ = some md at hm
+    rw [this] at hm; cases hm
+  · intro fam blk hb k hk
+    exact h3.blocks fam blk hb k hk
+
+theorem inv2_runOps : ∀ (ops : List Op) (s : Shard), Inv2 s → Inv2 (runOps s ops) := by
+  intro ops
+  induction ops with
+  | nil => intro s h; exact h
+  | cons op rest ih =>
+    intro s h
+    simp only [runOps, List.foldl_cons]
+    apply ih
+    cases op with
+    | write tick fam ser fld ft slot v => exact inv2_write s h tick fam ser fld ft slot v
+    | flush fam => exact inv2_flush s h fam
+    | compact fam => exact inv2_compact s h fam
+    | reopen => exact inv2_reopen s h
+
+theorem inv2_init (w : Nat) (sch : List (Nat × FieldType)) : Inv2 { Shard.init w with fieldTypes := sch } := by
+  constructor
+  · intro fam md k b hm; simp [Shard.family, Shard.init, Map.lookup, Family.empty] at hm
+  · intro fam blk hb; simp [Shard.family, Shard.init, Map.lookup, Family.empty, Family.readers] at hb
+
 /-! ### one family -/
 
-/-- the query does not hit a not-found rule in this family and every overlapping file feeds the
-queried field. -/
-def FamilyOK (s : Shard) (q : Query) (sc : Scope) (fam : Nat) : Prop :=
-  (∀ md, (s.family fam).mutable_ = some md → memFilter s q sc md fam ≠ none) ∧
-  (∀ blk ∈ (s.family fam).readers, ∀ tLo tHi, familyTarget q fam = some (tLo, tHi) →
-      overlap blk.lo blk.hi tLo tHi = true →
-      blockMatches sc blk = true ∧ blockSourceField s q sc blk = some q.field)
+/-- the scope of the query covers the queried field and the series of the group (it is built
+from all selected fields and all series that satisfy the condition). -/
+def ScopeOK (q : Query) (sc : Scope) (group : List Nat) : Prop :=
+  q.field ∈ sc.fields ∧ ∀ ser ∈ group, ser ∈ sc.series
 
 theorem memCalls_nil_of_filter_false (s : Shard) (q : Query) (sc : Scope) (L : List AggType) (md : MemDB) (fam : Nat)
     (group : List Nat) (h : memFilter s q sc md fam = some false) : memCalls s q L md fam group = [] := by
@@ -505,9 +764,47 @@ theorem memCalls_nil_of_filter_false (s : Shard) (q : Query) (sc : Scope) (L : L
         · split at h <;> cases h
       · simp [hov]
 
-theorem memResult_fsum (s : Shard) (pts : List Point) (hinv : Inv s pts) (q : Query) (sc : Scope) (hspf : 0 < q.spf)
-    (hc : AggComm (s.fieldAgg q.field)) (fam : Nat)
-    (hokm : ∀ md, (s.family fam).mutable_ = some md → memFilter s q sc md fam ≠ none) (group : List Nat) (t : Nat) :
+/-- a memory database whose filter answers not-found holds nothing for the group and the field. -/
+theorem pageView_none_of_filter_none (s : Shard) (h2 : Inv2 s) (q : Query) (sc : Scope) (group : List Nat)
+    (hsc : ScopeOK q sc group) (fam : Nat) (md : MemDB) (hm : (s.family fam).mutable_ = some md)
+    (hf : memFilter s q sc md fam = none) (ser : Nat) (hser : ser ∈ group) (slot : Nat) :
+    pageView s fam ser q.field slot = none := by
+  unfold pageView
+  rw [hm]
+  simp only
+  cases hp : Map.lookup md.pages (ser, q.field) with
+  | none => rfl
+  | some b =>
+    exfalso
+    unfold memFilter at hf
+    split at hf
+    · split at hf
+      · split at hf
+        · -- no page of a selected field
+          rename_i hnf
+          have hmem := mem_of_lookup md.pages (ser, q.field) b hp
+          have : (sc.fields.any fun f => md.pages.any fun (p : PageKey × Buf) => decide (p.1.2 = f)) = true := by
+            rw [List.any_eq_true]
+            refine ⟨q.field, hsc.1, ?_⟩
+            rw [List.any_eq_true]
+            exact ⟨((ser, q.field), b), hmem, by simp⟩
+          simp [this] at hnf
+        · split at hf
+          · -- no selected series known
+            rename_i hns
+            have hk := h2.known fam md (ser, q.field) b hm hp
+            have : (sc.series.any fun x => s.known.contains x) = true := by
+              rw [List.any_eq_true]
+              exact ⟨ser, hsc.2 ser hser, by simpa using hk⟩
+            rw [this] at hns
+            simp at hns
+          · cases hf
+      · cases hf
+    · cases hf
+
+theorem memResult_fsum (s : Shard) (pts : List Point) (hinv : Inv s pts) (h2 : Inv2 s) (q : Query) (sc : Scope)
+    (hspf : 0 < q.spf) (hc : AggComm (s.fieldAgg q.field)) (fam : Nat) (group : List Nat)
+    (hsc : ScopeOK q sc group) (t : Nat) :
     ∃ mem, memResult s q sc [s.fieldAgg q.field] fam group = some mem ∧
       fsum (s.fieldAgg q.field) mem (fun c => arrGet c (s.fieldAgg q.field) t) =
         famBucket (s.fieldAgg q.field) q fam t group (fun ser slot => pageView s fam ser q.field slot) := by
@@ -521,10 +818,21 @@ theorem memResult_fsum (s : Shard) (pts : List Point) (hinv : Inv s pts) (q : Qu
     intro ser slot _ _
     simp [pageView, hm]
   | some md =>
-    have hnn := hokm md hm
     simp only
     cases hf : memFilter s q sc md fam with
-    | none => exact absurd hf hnn
+    | none =>
+      have hni : s.cfg.notFoundIgnored = true := by rw [hinv.cfgFixed]; rfl
+      simp only [hni, if_true]
+      refine ⟨[], rfl, ?_⟩
+      simp only [fsum_nil]
+      symm
+      unfold famBucket
+      apply fsum_all_none
+      intro ser hser
+      apply fsum_all_none
+      intro slot _
+      have := pageView_none_of_filter_none s h2 q sc group hsc fam md hm hf ser hser slot
+      simp [this]
     | some bb =>
       cases bb with
       | true => exact ⟨_, rfl, memCalls_fsum s pts hinv q hspf hc fam md hm group t⟩
@@ -533,60 +841,118 @@ theorem memResult_fsum (s : Shard) (pts : List Point) (hinv : Inv s pts) (q : Qu
         rw [← memCalls_fsum s pts hinv q hspf hc fam md hm group t,
           memCalls_nil_of_filter_false s q sc _ md fam group hf]
 
+/-- with not-found ignored the family's calls are the memory calls followed by the calls of the
+matching readers. -/
 theorem combineCalls_fsum (A : AggType) (sc : Scope) (mem : List Arrays) (readers : List Block)
-    (callsOf : Block → List Arrays) (hall : ∀ blk ∈ readers, blockMatches sc blk = true) (f : Arrays → Option Int) :
-    fsum A (combineCalls sc mem readers callsOf) f =
-      ocomb A (fsum A mem f) (fsum A readers (fun blk => fsum A (callsOf blk) f)) := by
+    (callsOf : Block → List Arrays) (f : Arrays → Option Int) :
+    fsum A (combineCalls true sc mem readers callsOf) f =
+      ocomb A (fsum A mem f) (fsum A (readers.filter (blockMatches sc)) (fun blk => fsum A (callsOf blk) f)) := by
   unfold combineCalls
-  have hfilt : readers.filter (blockMatches sc) = readers := by
-    rw [List.filter_eq_self]
-    intro blk hb; exact hall blk hb
-  rw [hfilt]
-  cases readers with
+  cases hr : readers with
   | nil => simp [fsum_nil]
   | cons b0 rest =>
     simp only [List.isEmpty_cons, Bool.false_eq_true, if_false]
-    rw [fsum_append, fsum_flatMap]
+    cases hmt : (b0 :: rest).filter (blockMatches sc) with
+    | nil => simp [fsum_nil]
+    | cons m0 mrest =>
+      simp only [List.isEmpty_cons, Bool.false_eq_true, if_false]
+      rw [fsum_append, fsum_flatMap]
 
-theorem familyCalls_fsum (s : Shard) (pts : List Point) (hinv : Inv s pts) (q : Query) (sc : Scope) (hspf : 0 < q.spf)
-    (hc : AggComm (s.fieldAgg q.field)) (fam : Nat) (hok : FamilyOK s q sc fam) (group : List Nat) (t : Nat) :
+/-- a reader's cells for the group and the field, whether it matches the scope and lists the
+field or not. -/
+theorem fileCalls_fsum_any (s : Shard) (pts : List Point) (hinv : Inv s pts) (h2 : Inv2 s) (q : Query) (sc : Scope)
+    (A : AggType) (hspf : 0 < q.spf) (fam : Nat) (blk : Block) (hb : blk ∈ (s.family fam).readers)
+    (group : List Nat) (t : Nat) :
+    fsum A (fileCalls s q sc [A] blk fam group) (fun c => arrGet c A t) =
+      famBucket A q fam t group (fun ser slot => blk.cell (ser, q.field) slot) := by
+  have hsf : s.cfg.singleFieldByIndex = true := by rw [hinv.cfgFixed]; rfl
+  by_cases hcont : blk.fields.contains q.field = true
+  · exact fileCalls_fsum s q sc A hspf blk fam (by simp only [blockSourceField, hsf, if_true, hcont]) group t
+  · -- the block does not list the field: it holds no page of it
+    have hcf : blk.fields.contains q.field = false := by
+      cases h : blk.fields.contains q.field <;> simp_all
+    have hsrc : blockSourceField s q sc blk = none := by
+      simp only [blockSourceField, hsf, if_true, hcf, Bool.false_eq_true, if_false]
+    have hnil : fileCalls s q sc [A] blk fam group = [] := by
+      unfold fileCalls
+      rw [hsrc]
+      cases familyTarget q fam with
+      | none => rfl
+      | some tr => obtain ⟨a, b⟩ := tr; rfl
+    rw [hnil, fsum_nil]
+    symm
+    apply famBucket_none
+    intro ser slot _ _
+    unfold Block.cell
+    cases hp : Map.lookup blk.pages (ser, q.field) with
+    | none => rfl
+    | some cells =>
+      exfalso
+      have := (h2.blocks fam blk hb (ser, q.field) (mem_keys_of_lookup_some blk.pages _ cells hp)).1
+      rw [List.contains_eq_mem] at hcf
+      simp [this] at hcf
+
+theorem familyCalls_fsum (s : Shard) (pts : List Point) (hinv : Inv s pts) (h2 : Inv2 s) (q : Query) (sc : Scope)
+    (hspf : 0 < q.spf) (hc : AggComm (s.fieldAgg q.field)) (fam : Nat) (group : List Nat)
+    (hsc : ScopeOK q sc group) (t : Nat) :
     fsum (s.fieldAgg q.field) (familyCalls s q sc [s.fieldAgg q.field] fam group)
         (fun c => arrGet c (s.fieldAgg q.field) t) =
       famBucket (s.fieldAgg q.field) q fam t group (fun ser slot => storeView s fam ser q.field slot) := by
-  obtain ⟨hokm, hokf⟩ := hok
-  obtain ⟨mem, hmemEq, hmemSum⟩ := memResult_fsum s pts hinv q sc hspf hc fam hokm group t
+  obtain ⟨mem, hmemEq, hmemSum⟩ := memResult_fsum s pts hinv h2 q sc hspf hc fam group hsc t
+  have hni : s.cfg.notFoundIgnored = true := by rw [hinv.cfgFixed]; rfl
   unfold familyCalls
-  rw [hmemEq]
+  rw [hmemEq, hni]
   simp only
-  -- every overlapping reader matches and feeds the queried field
-  have hall : ∀ blk ∈ familyReaders s q fam,
-      blockMatches sc blk = true ∧ blockSourceField s q sc blk = some q.field := by
-    intro blk hb
-    unfold familyReaders at hb
-    cases ht : familyTarget q fam with
-    | none => rw [ht] at hb; simp at hb
-    | some tr =>
-      obtain ⟨tLo, tHi⟩ := tr
-      rw [ht] at hb
-      simp only at hb
-      rw [List.mem_filter] at hb
-      exact hokf blk hb.1 tLo tHi ht hb.2
-  rw [combineCalls_fsum _ sc mem _ _ (fun blk hb => (hall blk hb).1), hmemSum]
-  -- the files' calls as bucket folds of their cells
-  have hfiles : fsum (s.fieldAgg q.field) (familyReaders s q fam)
+  rw [combineCalls_fsum, hmemSum]
+  -- the matching overlapping readers → all readers
+  have hfiles : fsum (s.fieldAgg q.field) ((familyReaders s q fam).filter (blockMatches sc))
       (fun blk => fsum (s.fieldAgg q.field) (fileCalls s q sc [s.fieldAgg q.field] blk fam group)
         (fun c => arrGet c (s.fieldAgg q.field) t)) =
       fsum (s.fieldAgg q.field) (s.family fam).readers
         (fun blk => famBucket (s.fieldAgg q.field) q fam t group (fun ser slot => blk.cell (ser, q.field) slot)) := by
-    have h1 : fsum (s.fieldAgg q.field) (familyReaders s q fam)
+    have hsub : ∀ blk ∈ familyReaders s q fam, blk ∈ (s.family fam).readers := by
+      intro blk hb
+      unfold familyReaders at hb
+      cases ht : familyTarget q fam with
+      | none => rw [ht] at hb; simp at hb
+      | some tr =>
+        obtain ⟨tLo, tHi⟩ := tr
+        rw [ht] at hb
+        simp only at hb
+        exact (List.mem_filter.mp hb).1
+    have h1 : fsum (s.fieldAgg q.field) ((familyReaders s q fam).filter (blockMatches sc))
         (fun blk => fsum (s.fieldAgg q.field) (fileCalls s q sc [s.fieldAgg q.field] blk fam group)
           (fun c => arrGet c (s.fieldAgg q.field) t)) =
-        fsum (s.fieldAgg q.field) (familyReaders s q fam)
+        fsum (s.fieldAgg q.field) ((familyReaders s q fam).filter (blockMatches sc))
           (fun blk => famBucket (s.fieldAgg q.field) q fam t group (fun ser slot => blk.cell (ser, q.field) slot)) := by
       apply fsum_congr
       intro blk hb
-      exact fileCalls_fsum s q sc _ hspf blk fam (hall blk hb).2 group t
+      exact fileCalls_fsum_any s pts hinv h2 q sc _ hspf fam blk (hsub blk (List.mem_filter.mp hb).1) group t
     rw [h1]
+    -- a reader that does not match the scope holds nothing for the group and the field
+    rw [fsum_filter _ _ (blockMatches sc) _ (by
+      intro blk hb hnm
+      have hbr := hsub blk hb
+      unfold famBucket
+      apply fsum_all_none
+      intro ser hser
+      apply fsum_all_none
+      intro slot _
+      have hcell : blk.cell (ser, q.field) slot = none := by
+        unfold Block.cell
+        cases hp : Map.lookup blk.pages (ser, q.field) with
+        | none => rfl
+        | some cells =>
+          exfalso
+          obtain ⟨hf, hs⟩ := h2.blocks fam blk hbr (ser, q.field) (mem_keys_of_lookup_some blk.pages _ cells hp)
+          have hmatch : blockMatches sc blk = true := by
+            unfold blockMatches
+            rw [Bool.and_eq_true, List.any_eq_true, List.any_eq_true]
+            exact ⟨⟨q.field, hsc.1, by simpa using hf⟩, ⟨ser, hsc.2 ser hser, by simpa using hs⟩⟩
+          rw [hmatch] at hnm
+          cases hnm
+      simp [hcell])]
+    -- readers that do not overlap the query range hold nothing in it
     unfold familyReaders
     cases ht : familyTarget q fam with
     | none =>
@@ -611,42 +977,18 @@ theorem familyCalls_fsum (s : Shard) (pts : List Point) (hinv : Inv s pts) (q : 
   rw [readers_eq_chron hc]
   exact ocomb_comm hc _ _
 
-/-- `FamilyOK`, executable. -/
-def familyOKB (s : Shard) (q : Query) (sc : Scope) (fam : Nat) : Bool :=
-  (match (s.family fam).mutable_ with
-    | some md => (memFilter s q sc md fam).isSome
-    | none => true) &&
-  (match familyTarget q fam with
-    | some (tLo, tHi) => (s.family fam).readers.all (fun (blk : Block) =>
-        !overlap blk.lo blk.hi tLo tHi || (blockMatches sc blk && (blockSourceField s q sc blk == some q.field)))
-    | none => true)
-
-theorem familyOK_of_B (s : Shard) (q : Query) (sc : Scope) (fam : Nat) (h : familyOKB s q sc fam = true) :
-    FamilyOK s q sc fam := by
-  unfold familyOKB at h
-  rw [Bool.and_eq_true] at h
-  obtain ⟨h1, h2⟩ := h
-  constructor
-  · intro md hm hnone
-    rw [hm] at h1
-    simp [hnone] at h1
-  · intro blk hb tLo tHi ht hov
-    rw [ht] at h2
-    simp only at h2
-    rw [List.all_eq_true] at h2
-    have := h2 blk hb
-    simp only [hov, Bool.not_true, Bool.false_or, Bool.and_eq_true, beq_iff_eq] at this
-    exact this
-
 /-! ### all families, and the reference in the same form -/
 
-theorem leafGroup_eq_fsum (s : Shard) (pts : List Point) (hinv : Inv s pts) (q : Query) (sc : Scope) (hspf : 0 < q.spf)
-    (hc : AggComm (s.fieldAgg q.field)) (fams group : List Nat) (hok : ∀ fam ∈ fams, FamilyOK s q sc fam) (t : Nat) :
+theorem leafGroup_eq_fsum (s : Shard) (pts : List Point) (hinv : Inv s pts) (h2 : Inv2 s) (q : Query) (sc : Scope)
+    (hspf : 0 < q.spf) (hc : AggComm (s.fieldAgg q.field)) (fams group : List Nat) (hsc : ScopeOK q sc group) (t : Nat) :
     arrGet (leafGroup s q sc [s.fieldAgg q.field] fams group) (s.fieldAgg q.field) t =
       fsum (s.fieldAgg q.field) group (fun ser => fsum (s.fieldAgg q.field) fams (fun fam =>
         fsum (s.fieldAgg q.field) (List.range q.spf) (fun slot =>
           if bucketOf q fam slot = some t then storeView s fam ser q.field slot else none))) := by
   unfold leafGroup
+  have hab : s.cfg.aggregateByType = true := by rw [hinv.cfgFixed]; rfl
+  rw [hab]
+  simp only [if_true]
   rw [reduce_spec _ _ (by
     intro c hcm
     rw [List.mem_flatMap] at hcm
@@ -659,8 +1001,8 @@ theorem leafGroup_eq_fsum (s : Shard) (pts : List Point) (hinv : Inv s pts) (q :
       fsum (s.fieldAgg q.field) fams (fun fam =>
         famBucket (s.fieldAgg q.field) q fam t group (fun ser slot => storeView s fam ser q.field slot)) := by
     apply fsum_congr
-    intro fam hf
-    exact familyCalls_fsum s pts hinv q sc hspf hc fam (hok fam hf) group t
+    intro fam _
+    exact familyCalls_fsum s pts hinv h2 q sc hspf hc fam group hsc t
   rw [h1]
   unfold famBucket
   exact fsum_swap hc fams group _
